@@ -24,7 +24,8 @@ impl Ctx {
         if std::fs::write(&self.tmp, p.to_text()).is_err() {
             return false;
         }
-        let out = Command::new(&self.exe).arg("replay").arg(&self.tmp).arg("--prop").arg(&self.prop).output();
+        // the child has its own watchdog; a shorter limit keeps minimisation moving when candidates hang
+        let out = Command::new(&self.exe).arg("replay").arg(&self.tmp).arg("--prop").arg(&self.prop).env("CCSIM_RUN_TIMEOUT_MS", "5000").output();
         let Ok(out) = out else { return false };
         let text = String::from_utf8_lossy(&out.stdout);
         if self.oracle == "crash" {
